@@ -45,11 +45,11 @@ def _write_if_changed(path, text):
         f.write(text)
 
 
-def _cargo(crate):
+def _cargo(crate, target=None, features=None):
     env = core.cargo_env()
-    env["CARGO_TARGET_DIR"] = TARGET
-    return subprocess.run(["cargo", "build", "--offline"], cwd=crate, env=env, stdout=subprocess.PIPE,
-                          stderr=subprocess.STDOUT, text=True)
+    env["CARGO_TARGET_DIR"] = target or TARGET
+    argv = ["cargo", "build", "--offline"] + (["--features", features] if features else [])
+    return subprocess.run(argv, cwd=crate, env=env, stdout=subprocess.PIPE, stderr=subprocess.STDOUT, text=True)
 
 
 def build_probe(quiet=True):
@@ -71,3 +71,64 @@ def build_probe(quiet=True):
     if not quiet:
         print("ffi probe ok in %.1fs: %s" % (time.time() - t0, LIB))
     return LIB
+
+
+# ----------------------------------------------------------------------------- tagged builds, library layout
+
+VARIANTS = {"A": None, "B": "variant_b", "C": "variant_c"}
+ONLY = {"only_in_a": "A", "only_in_b": "B"}          # symbols that exist in one build only
+
+
+def _variant_target(v):
+    return TARGET if v == "A" else TARGET + "_" + v.lower()
+
+
+def build_variants(quiet=True):
+    """Builds the plain probe (A) and the tagged builds B and C (cargo features `variant_b` / `variant_c`, one
+    target directory each so that warm builds are no-ops; B and C are built concurrently).
+    Returns {variant: path of the shared object}."""
+    import threading
+    libs = {"A": build_probe(quiet)}
+    crate = _crate_dir()
+    results = {}
+
+    def one(v):
+        results[v] = _cargo(crate, _variant_target(v), VARIANTS[v])
+    threads = [threading.Thread(target=one, args=(v,)) for v in ("B", "C")]
+    t0 = time.time()
+    for t in threads:
+        t.start()
+    for t in threads:
+        t.join()
+    for v in ("B", "C"):
+        p = results[v]
+        so = os.path.join(_variant_target(v), "debug", "libffi_probe.so")
+        if p.returncode != 0 or not os.path.exists(so):
+            raise core.Inconclusive("cargo build of the FFI probe variant %s failed (exit %d):\n%s" % (
+                v, p.returncode, "\n".join(p.stdout.splitlines()[-30:])))
+        libs[v] = so
+    if not quiet:
+        print("ffi probe variants ok in %.1fs" % (time.time() - t0))
+    return libs
+
+
+def install_layout(libs):
+    """Installs the builds under <work>/ffi_libs: the SAME file name in different directories and different file
+    names in the same directory, plus places where a file of that name is missing.
+    Returns {key: (path, variant or None)}."""
+    root = os.path.join(core.WORK, "ffi_libs")
+    shutil.rmtree(root, ignore_errors=True)
+    layout = {"a/plugin": ("a/libplugin.so", "A"), "b/plugin": ("b/libplugin.so", "B"), "c/plugin": ("c/libplugin.so", "C"),
+              "same/one": ("same/libone.so", "A"), "same/two": ("same/libtwo.so", "B"), "same/three": ("same/libthree.so", "C"),
+              "deep/a/plugin": ("deep/x/y/libplugin.so", "C")}
+    out = {}
+    for key, (rel, v) in layout.items():
+        path = os.path.join(root, rel)
+        os.makedirs(os.path.dirname(path), exist_ok=True)
+        shutil.copyfile(libs[v], path)
+        out[key] = (path, v)
+    os.makedirs(os.path.join(root, "empty"), exist_ok=True)
+    out["empty/plugin"] = (os.path.join(root, "empty", "libplugin.so"), None)        # directory exists, file does not
+    out["nodir/plugin"] = (os.path.join(root, "no", "such", "dir", "libplugin.so"), None)
+    out["same/missing"] = (os.path.join(root, "same", "libfour.so"), None)
+    return out
